@@ -12,7 +12,7 @@ From Coq Require Import List ZArith NArith Bool.
 From BBS Require Import Common.Sx Buffer.Source Buffer.Validate Buffer.Convert Buffer.ErrHandler
   Buffer.StreamProofs Buffer.ValidateProofs Buffer.ErrHandlerProofs Buffer.ClosedOnceProofs
   Buffer.ErrHandlerStackProofs Buffer.StackRuleProofs Buffer.ValidateReaderProofs Buffer.ConvertProofs
-  Buffer.EHFullCarry Buffer.EHFullReader Buffer.EHFullMethods Buffer.EHFullStack Buffer.EHFullPrefix Buffer.EHFullExact Buffer.EHFullStackExact Buffer.EHFullStacking Buffer.EHFullCompleted Buffer.EHFullMon Run.R09 Run.R16 Run.R16Proofs.
+  Buffer.EHFullCarry Buffer.EHFullReader Buffer.EHFullMethods Buffer.EHFullStack Buffer.EHFullPrefix Buffer.EHFullExact Buffer.EHFullStackExact Buffer.EHFullStacking Buffer.EHFullCompleted Buffer.EHFullMon Buffer.EHFullMon3 Run.R09 Run.R16 Run.R16Proofs.
 Import ListNotations.
 Open Scope N_scope.
 
@@ -455,6 +455,17 @@ Theorem clause_1_silent_on_model : forall inp,
   q_anss (dec_case16 inp) <> [] -> last (obs_dones (run16 inp)) 0%Z = 1%Z.
 Proof. exact EHFullMon.clause_1_silent_on_model. Qed.
 Print Assumptions clause_1_silent_on_model.
+
+(** Clause 3 (a streaming method completed => the stitched stream of the
+    specification is valid and the consumer holds exactly its expected slice)
+    is silent on the model for every input of the harness's domain on which the
+    model does not run out of fuel ([dom16], Buffer/EHFullMon3.v: at least one
+    handler; well-formed buffers, i.e. readers that attach EOF to data have
+    scripts of chunks and at most one final Eof; no fuel exhaustion offered to a
+    handler; a positive final error code). *)
+Theorem clause_3_silent_on_model_partial : forall inp, dom16 inp -> ~ In 3%Z (mon16 inp (run16 inp)).
+Proof. exact clause_3_silent_on_model. Qed.
+Print Assumptions clause_3_silent_on_model_partial.
 
 (** Non-vacuity: the original fails after one byte, the replacement is opened
     at offset 1; the consumer gets 1,2,3 once each, validation succeeds, the
